@@ -104,6 +104,7 @@ type Obligation struct {
 	Name      string
 	Props     []string
 	ExpectSat bool
+	NotUnsat  bool // consistency probe: the goal is "false"; passes unless a solver derives a contradiction
 	prefix    int // number of script lines that precede the goal
 	goal      string
 	script    *[]string
@@ -347,6 +348,15 @@ func (g *vcgen) define(base string, e Expr, st vcState) Expr {
 	}
 	g.elemFacts(e, st)
 	v := g.fresh(base, e.Sort())
+	if a, ok := e.(*App); ok && a.Op == "store" {
+		if in, ok := a.Args[0].(*App); ok && in.Op == "store" {
+			// a chain of stores: a name of its own (not a macro), so that quantifier patterns over
+			// the new memory mention a constant and not the chain
+			g.emit(fmt.Sprintf("(declare-const %s %s)", v.Name, v.S))
+			g.emit(fmt.Sprintf("(assert (= %s %s))", v.Name, PrintIn(e, st)))
+			return v
+		}
+	}
 	g.emit(fmt.Sprintf("(define-fun %s () %s %s)", v.Name, v.S, PrintIn(e, st)))
 	return v
 }
